@@ -170,6 +170,8 @@ def check(ctx):
                     f = True
             if a in ("badtoken", "timeout") or im.get("st") == "2":
                 f = True
+            if a in ("trace", "ast", "print") and rec["kind"] != "history" and sp.get("res") == "S" and im.get("toks", "") == sp.get("toks", ""):
+                f = True      # tokens are right, what Execute / AST / the printer derive from them is not
             if a in ("errmsg", "errpos", "errtext") and im.get("st") == "1":
                 f = not message_ok(rec["inputs"][0], im)
             if a.startswith("spec-"):
